@@ -107,3 +107,6 @@ package dcs
 // ---- C20: structural invariant of the client (assumed at entry in the sweep) -----------------------------------------
 //@ define zkOK(z *zkDCS) = z.logger != nil && z.config != nil && z.conn != nil
 //@ typeinv *dcs.zkDCS zkOK init dcs.NewZookeeper
+//@ func dcs.NewZookeeper
+//@   ensures C20.nonnil [C20]: result1 == nil ==> result0 != nil
+//@   requires args [safety]: config != nil && logger != nil
